@@ -839,6 +839,16 @@ func keyproofSafetyRule(P *Program, R *Report) {
 						}}
 					}}}
 					m := fa.inFn(fn, acc)
+					if !m.holds && isBigIntPtr(u.Elem()) {
+						// `if slices.Contains(field, nil) { return false }`: no element of the whole slice is nil
+						q := &MustPass{P: P, Match: func(a Atom) bool {
+							cc, ok := callAtom(a, False, "slices.Contains")
+							return ok && len(cc.Call.Args) == 2 && desc(cc.Call.Args[0]) == fd && isNilConst(cc.Call.Args[1])
+						}}
+						if r := q.Check(fn, acc); r.Holds && r.NAcc > 0 {
+							return true, "slices.Contains(" + fd + ", nil) is false on every accepting path"
+						}
+					}
 					return m.holds, m.detail
 				})
 				R.decide(rule, c+":elements", "accept of the structure check => every element of "+f+" was checked, in a loop with as many iterations as the field has elements", okElem, d, "")
